@@ -32,12 +32,13 @@ Inductive case :=
        afterwards; impl = observation of the second compilation (configuration c) of the same object *)
 | CCrash.                                                                  (* unexpected exception / hang *)
 
-(* strict structural equality of trees (volatile properties syntactically) *)
+(* strict structural equality of trees (volatile properties syntactically; a property scaled by 0 is the constant 0
+   in the implementation — its expression no longer names what was scaled — so factor 0 = factor 0) *)
 Fixpoint vprop_same (a b : vprop) : bool :=
   match a, b with
-  | VId k i, VId k' i' => (k =? k') && (i =? i')
-  | VOp k p c, VOp k' p' c' => (k =? k') && vprop_same p p' && vprop_same c c'
-  | _, _ => false
+  | VId k i, VId k' i' => (k =? k') && ((k =? 0) || (i =? i'))
+  | VOp k p c, VOp k' p' c' => (k =? k') && ((k =? 0) || (vprop_same p p' && vprop_same c c'))
+  | VId k _, VOp k' _ _ | VOp k _ _, VId k' _ => (k =? 0) && (k' =? 0)
   end.
 
 Definition meta_same (a b : nmeta) : bool :=
